@@ -99,7 +99,7 @@ def annot_specs(vec):
     else:
         a += ['union Holder', '    v', '    h %s' % ty] + tags(8) + ['']
     return [('nsa.stone', '\n'.join(a)),
-            ('nsb.stone', 'namespace nsb\n\nannotation Fo = Omitted("f")\n'),
+            ('nsb.stone', 'namespace nsb\n\nannotation Fo = Omitted("f")\n\nannotation_type TB\n    x String\n\nannotation Cu = TB("q")\n'),
             ('nsc.stone', 'namespace nsc\n\nannotation Nc = Deprecated()\n')]
 
 
@@ -109,7 +109,8 @@ DEF_ARGS = {'none': '', 'pos_s': '"a"', 'pos_i': '1', 'pos_ii': '1, 2', 'pos_ss'
 
 def anndef_specs(vec):
     a = ['namespace nsa', '', 'import nsb', '', 'annotation_type Note', '    importance String = "low"', '',
-         'annotation_type Pair', '    x Int32', '    y Int32', '', 'struct Sx', '    x Int32', '',
+         'annotation_type Pair', '    x Int32', '    y Int32', ''] + (['annotation_type Bad', '    p', ''] if vec['r'] == 'Bad' else []) + [
+         'struct Sx', '    x Int32', '',
          'annotation Probe = %s(%s)' % (vec['r'], DEF_ARGS[vec['a']]), '',
          'struct Holder', '    h String', '        @Probe', '']
     return [('nsa.stone', '\n'.join(a)),
@@ -119,7 +120,7 @@ def anndef_specs(vec):
 
 def badtype_specs(vec):
     site, n = vec['site'], vec['n']
-    a = ['namespace nsa', '', 'import nsb', '', 'annotation Dep = Deprecated()', '', 'annotation_type Note',
+    a = ['namespace nsa', '', 'import nsb'] + (['import stone_cfg'] if n.startswith('stone_cfg') else []) + ['', 'annotation Dep = Deprecated()', '', 'annotation_type Note',
          '    importance String = "low"', '', 'alias Aa = String', '', 'route ra(Void, Void, Void)', '']
     if site == 'field':
         a += ['struct Holder', '    h %s' % n, '']
@@ -135,8 +136,9 @@ def badtype_specs(vec):
         a += ['route rb(%s, Void, Void)' % n, '']
     elif site == 'list_item':
         a += ['struct Holder', '    h List(%s)' % n, '']
-    return [('nsa.stone', '\n'.join(a)),
-            ('nsb.stone', 'namespace nsb\n\nannotation Fo = Omitted("f")\n\nstruct Tb\n    x Int32\n    example default\n        x = 1\n')]
+    return [('stone_cfg.stone', 'namespace stone_cfg\n\nstruct Route\n    x String = "a"\n'), ('nsa.stone', '\n'.join(a)),
+            ('nsb.stone', 'namespace nsb\n\nannotation Fo = Omitted("f")\n\nstruct Tb\n    x Int32\n    example default\n        x = 1\n'),
+            ('nsz9.stone', 'namespace nsz9\n\nroute q(Void, Void, Void)\n')]
 
 
 class LitJudge(Judge):
